@@ -411,6 +411,6 @@ VARIANTS = [
             "        total_errors, _ = result.count_tmp_prs_errors()\n        if total_errors > 0:",
             "        _, total_errors = result.count_tmp_prs_errors()\n        if total_errors > 0:", "R18a", "fix", "the original defect F2"),
     Variant("api-fix-new-sink-ungated", API,
-            "    if should_fix:\n        sql = result.paths[0].files[0].fix_string()[0]\n    return sql",
-            "    sql = result.paths[0].files[0].fix_string()[0]\n    return sql", "R18a", "fix"),
+            "    if should_fix and result.num_violations(types=SQLLintError, fixable=True) > 0:\n        sql = result.paths[0].files[0].fix_string()[0]\n    return sql",
+            "    if result.num_violations(types=SQLLintError, fixable=True) > 0:\n        sql = result.paths[0].files[0].fix_string()[0]\n    return sql", "R18a", "fix"),
 ]
